@@ -34,6 +34,21 @@
 (*                                                                         *)
 (* The actions carry their nondeterministic choices as parameters so that  *)
 (* DOETrace.tla re-uses them with the values logged from real runs.        *)
+(*                                                                         *)
+(* VARIABLE ORDER.  A design space is a sequence of COMPONENTS; each       *)
+(* component names the variable it belongs to (field var), the components  *)
+(* of a variable are contiguous: the sequence IS the design space's        *)
+(* variable order (order of add_variable, kept by rename / remove / filter *)
+(* / filter_dimensions: Prep).  Whatever the user hands over BY NAME or BY *)
+(* COMPONENT (user-supplied designs in their four input forms, the         *)
+(* reversed variables of the diagonal design, per-direction levels of a    *)
+(* full factorial, per-direction centres of the stratified designs, the    *)
+(* initial point of the one-at-a-time design) is given a MEANING in terms  *)
+(* of (variable name, offset) - record aux of the call - and the result    *)
+(* is stated against that meaning: clauses VariableOrder and Structure.    *)
+(* The input form and the key order of the user's mappings are parameters  *)
+(* of the call that the result does not depend on (PresentationNeutral,    *)
+(* and Deterministic: the memo key holds the meaning, not the form).       *)
 (***************************************************************************)
 EXTENDS Integers, Sequences, FiniteSets, TLC
 
@@ -48,7 +63,11 @@ CONSTANTS G,          \* unit grid denominator
           Seeds,      \* explicit seeds explored
           GridVals,   \* unit grid indices the opaque sampler may return
           Injects,    \* subset of BOOLEAN: may the sampler raise by itself
-          UnitMode,   \* "all": every matrix over GridVals; "const": all cells equal (large counts)
+          UnitMode,   \* "all": every matrix over GridVals; "const": all cells equal (large counts);
+                      \* "rows": every row constant
+          UxMode,     \* "plain": default user-level structure only; "rich": input forms, key orders,
+                      \*          per-variable / per-component settings are enumerated
+          Forms,      \* input forms of a user-supplied design: subset of {"array", "rows", "cols", "file"}
           MaxCalls    \* length of the call histories
 
 VARIABLES dflt,   \* dflt[i]: Seeder.default_seed of library instance i
@@ -76,19 +95,46 @@ IRoot(n, d) == IF n < 1 THEN 0 ELSE IF d = 1 THEN n ELSE Bisect(n, d, 1, Above(n
 
 ----------------------------------------------------------------------------
 (* Design spaces (S = 8): asymmetric dyadic bounds, mixed float / integer.  *)
-F(l, u) == [lb |-> l, ub |-> u, int |-> FALSE]
-I(l, u) == [lb |-> l, ub |-> u, int |-> TRUE]
+(* Variables of sizes 1-2, added in a NON-alphabetical order.               *)
+F(v, l, u) == [var |-> v, lb |-> l, ub |-> u, int |-> FALSE]
+I(v, l, u) == [var |-> v, lb |-> l, ub |-> u, int |-> TRUE]
 Catalogue == <<
-  << F(-24, -8) >>,                                   \* 1: x in [-3, -1]
-  << I(16, 56) >>,                                    \* 2: k in {2..7}
-  << F(4, 6), I(16, 56) >>,                           \* 3: [0.5, 0.75] x {2..7}
-  << I(-8, 16), F(-24, -8) >>,                        \* 4: {-1..2} x [-3, -1]
-  << F(-24, -8), F(8, 72), I(16, 56) >>,              \* 5: d = 3
-  << F(-24, -8), I(-8, 16), F(4, 6), F(8, 72) >>      \* 6: d = 4
+  << F("x", -24, -8) >>,                                              \* 1: x in [-3, -1]
+  << I("k", 16, 56) >>,                                               \* 2: k in {2..7}
+  << F("y", 4, 6), I("k", 16, 56) >>,                                 \* 3: y, k
+  << I("n", -8, 16), F("a", -24, -8) >>,                              \* 4: n, a
+  << F("z", -24, -8), F("z", 8, 72), I("k", 16, 56) >>,               \* 5: z (size 2), k
+  << F("y", -24, -8), I("n", -8, 16), F("b", 4, 6), F("b", 8, 72) >>  \* 6: y, n, b (size 2)
 >>
-\* SpaceIds above 100: the unit space [0,1]^d with d = id - 100 (large dimensions, count rules)
-UnitSpace(d) == [k \in 1..d |-> F(0, S)]
+\* SpaceIds above 100: the unit space [0,1]^d with d = id - 100 (large dimensions, count rules): ONE
+\* variable "x" of size d - the space compute_doe builds when it is given a dimension instead of a space
+UnitSpace(d) == [k \in 1..d |-> F("x", 0, S)]
 SpaceOf(i) == IF i > 100 THEN UnitSpace(i - 100) ELSE Catalogue[i]
+
+\* ---- layout: variables, their component indices, slices
+KeepIdx(s, K) == [m \in 1..Cardinality(K) |-> s[CHOOSE k \in K : Cardinality({j \in K : j <= k}) = m]]
+VarSet(space) == {space[k].var : k \in 1..Len(space)}
+VarSeq(space) == LET first == {k \in 1..Len(space) : \A j \in 1..(k - 1) : space[j].var # space[k].var}
+                 IN  [m \in 1..Cardinality(first) |-> KeepIdx(space, first)[m].var]
+Idx(space, v) == LET K == {k \in 1..Len(space) : space[k].var = v}
+                 IN  [m \in 1..Cardinality(K) |-> CHOOSE k \in K : Cardinality({j \in K : j <= k}) = m]
+OffIn(space, k) == Cardinality({j \in 1..k : space[j].var = space[k].var})
+Slice(row, ix) == [m \in 1..Len(ix) |-> row[ix[m]]]
+WellFormed(space) == /\ \A i, j, k \in 1..Len(space) : i < j /\ j < k /\ space[i].var = space[k].var => space[j].var = space[i].var
+                     /\ \A i, j \in 1..Len(space) : space[i].var = space[j].var => space[i].int = space[j].int
+
+\* ---- the design space was PREPARED by DesignSpace operations before the DOE runs (semantics of C02,
+\*      DesignSpace.tla): every one of them keeps the relative order of what it keeps
+NoOp == [op |-> "none", name |-> "", new |-> "", names |-> <<>>, dims |-> <<>>]
+Range(q) == {q[i] : i \in DOMAIN q}
+PrepOne(space, o) ==
+  CASE o.op = "rename" -> [k \in 1..Len(space) |-> IF space[k].var = o.name THEN [space[k] EXCEPT !.var = o.new] ELSE space[k]]   \* in place
+    [] o.op = "remove" -> KeepIdx(space, {k \in 1..Len(space) : space[k].var # o.name})
+    [] o.op = "keep"   -> KeepIdx(space, {k \in 1..Len(space) : space[k].var \in Range(o.names)})     \* filter(names)
+    [] o.op = "dims"   -> KeepIdx(space, {k \in 1..Len(space) : space[k].var = o.name => (OffIn(space, k) - 1) \in Range(o.dims)})  \* filter_dimensions
+    [] OTHER           -> space
+RECURSIVE PrepAll(_, _)
+PrepAll(space, ops) == IF ops = <<>> THEN space ELSE PrepAll(PrepOne(space, Head(ops)), Tail(ops))
 Dim == Len(sp)
 
 ----------------------------------------------------------------------------
@@ -100,12 +146,14 @@ Dim == Len(sp)
 (*       morris / oat: 1 iff the relative step exceeds 1/2)                 *)
 NFams == {"exact", "exact2", "atmost", "diag", "fullfact", "axial", "factorial",
           "composite", "morris", "sobolidx"}
-ZFams == {"bb", "cc", "ff2n", "pb", "custom", "oat"}
+\* "...L": the same designs parameterised by per-direction levels / centres instead of n_samples
+LFams == {"fullfactL", "axialL", "factorialL", "compositeL"}
+ZFams == {"bb", "cc", "ff2n", "pb", "custom", "oat"} \cup LFams
 AllFams == NFams \cup ZFams
 PFams == {"bb", "cc", "sobolidx", "custom", "morris", "oat"}     \* families with an extra setting p
 \* families named by the quantifier of C14 ("designed to fill the domain")
 QFams == {"exact", "exact2", "diag", "fullfact", "axial", "factorial", "composite",
-          "morris", "custom"}
+          "morris", "custom"} \cup LFams
 
 MinN(f) == IF f \in {"diag", "exact2"} THEN 2 ELSE 1     \* pydantic: ge=2
 \* custom: CustomDOE_Settings refuses an empty `samples`
@@ -179,6 +227,73 @@ InBoundsCell(c, x) == c.lb * G <= x /\ x <= c.ub * G
 IntegralCell(c, x) == c.int => x % U = 0
 
 ----------------------------------------------------------------------------
+(* USER-PROVIDED STRUCTURE.  ux: what the user literally passes; aux: what  *)
+(* it MEANS on the design space (by variable name and offset / by           *)
+(* component of the design-space order).                                    *)
+(*  custom  form "array" | "file": pres = matrix, columns in the design-    *)
+(*                 space order (file: delimiter / skiprows / comment lines  *)
+(*                 coded by fopt, which the result does not depend on);     *)
+(*          form "rows": pres = one mapping per sample, as a sequence of    *)
+(*                 <<name, components>> pairs IN THE USER'S KEY ORDER;      *)
+(*          form "cols": pres = one mapping, as a sequence of               *)
+(*                 <<name, 2-D array>> pairs in the user's key order.       *)
+(*          Values are integers in units 1/(S*G).  perm: the key order.     *)
+(*  diag    sel: the `reverse` setting, strings that are either a variable  *)
+(*          name (all its components) or the decimal 0-based index of a     *)
+(*          component of the design space                                   *)
+(*  fullfactL  pv: levels per direction (or one level for all: scal)        *)
+(*  axialL / factorialL / compositeL  pv: centres per direction in units    *)
+(*          1/G (or one for all: scal), lv: levels <<a, b>> = a/b in ]0, 1] *)
+(*  oat     pv: the initial point, per component, in units 1/G              *)
+NoUx == [form |-> "none", perm |-> <<>>, fopt |-> 0, pres |-> <<>>, sel |-> <<>>, pv |-> <<>>,
+         scal |-> FALSE, lv |-> <<>>]
+NoAux == [tab |-> <<>>, rev |-> {}, pv |-> <<>>, lv |-> {}]
+PVFams == LFams \cup {"oat"}
+StratL == {"axialL", "factorialL", "compositeL"}
+BaseFam(f) == CASE f = "axialL" -> "axial" [] f = "factorialL" -> "factorial" [] f = "compositeL" -> "composite" [] OTHER -> f
+
+Lookup(pairs, v) == pairs[CHOOSE i \in 1..Len(pairs) : pairs[i][1] = v][2]
+\* the named-column table a presentation denotes: row r, variable v |-> the components given for (r, v)
+TableOf(space, form, pres) ==
+  CASE form \in {"array", "file"} -> [r \in 1..Len(pres) |-> [v \in VarSet(space) |-> Slice(pres[r], Idx(space, v))]]
+    [] form = "rows"             -> [r \in 1..Len(pres) |-> [v \in VarSet(space) |-> Lookup(pres[r], v)]]
+    [] form = "cols"             -> [r \in 1..Len(pres[1][2]) |-> [v \in VarSet(space) |-> Lookup(pres, v)[r]]]
+    [] OTHER                     -> <<>>
+\* ... and the presentation of a table in a form, with the keys in order perm (a permutation of the names)
+Presented(space, tab, form, perm) ==
+  CASE form \in {"array", "file"} -> [r \in 1..Len(tab) |-> [k \in 1..Len(space) |-> tab[r][space[k].var][OffIn(space, k)]]]
+    [] form = "rows"             -> [r \in 1..Len(tab) |-> [i \in 1..Len(perm) |-> <<perm[i], tab[r][perm[i]]>>]]
+    [] form = "cols"             -> [i \in 1..Len(perm) |-> <<perm[i], [r \in 1..Len(tab) |-> tab[r][perm[i]]]>>]
+    [] OTHER                     -> <<>>
+IdxStr == <<"0", "1", "2", "3", "4", "5", "6", "7", "8", "9", "10", "11", "12", "13">>
+RevComps(space, sel) ==
+  {k \in 1..Len(space) : \E i \in 1..Len(sel) : sel[i] = space[k].var \/ (k <= Len(IdxStr) /\ sel[i] = IdxStr[k])}
+Expand(pv, scal, d) == IF scal THEN [k \in 1..d |-> pv[1]] ELSE pv
+AuxOf(space, f, ux) ==
+  [tab |-> IF f = "custom" THEN TableOf(space, ux.form, ux.pres) ELSE <<>>,
+   rev |-> IF f = "diag" THEN RevComps(space, ux.sel) ELSE {},
+   pv  |-> IF f \in PVFams THEN Expand(ux.pv, ux.scal, Len(space)) ELSE <<>>,
+   lv  |-> IF f \in StratL THEN Range(ux.lv) ELSE {}]
+\* well-formed user structure (the harness and the bounded model only produce such)
+AuxValid(space, f, p, a) ==
+  CASE f = "custom"    -> Len(a.tab) = p /\ p >= 1
+    [] f = "fullfactL" -> Len(a.pv) = Len(space) /\ \A k \in 1..Len(a.pv) : a.pv[k] >= 1
+    [] f \in StratL    -> /\ Len(a.pv) = Len(space) /\ \A k \in 1..Len(a.pv) : 0 < a.pv[k] /\ a.pv[k] < G
+                          /\ a.lv # {} /\ \A l \in a.lv : 0 < l[1] /\ l[1] <= l[2]
+    [] f = "oat"       -> Len(a.pv) = Len(space) /\ \A k \in 1..Len(a.pv) : 0 <= a.pv[k] /\ a.pv[k] <= G
+    [] OTHER           -> TRUE
+RECURSIVE Prod(_)
+Prod(q) == IF q = <<>> THEN 1 ELSE Head(q) * Prod(Tail(q))
+\* the count rule of a call c (family, n, p and the meaning aux of its user structure) in dimension d
+CountOfC(c, d) ==
+  CASE c.fam = "fullfactL"  -> Prod(c.aux.pv)                                         \* product of the levels
+    [] c.fam = "axialL"     -> 1 + 2 * d * Cardinality(c.aux.lv)
+    [] c.fam = "factorialL" -> 1 + Pow(2, d) * Cardinality(c.aux.lv)
+    [] c.fam = "compositeL" -> 1 + Cardinality(c.aux.lv) * (2 * d + Pow(2, d))
+    [] OTHER                -> CountOf(c.fam, c.n, d, c.p)
+CountOKC(c, d, cnt) == IF c.fam = "atmost" THEN (1 <= cnt /\ cnt <= c.n) ELSE cnt = CountOfC(c, d)
+
+----------------------------------------------------------------------------
 (* STRUCTURE of the designs whose unit samples are built or rescaled by      *)
 (* gemseo's own wrapper code (not by the opaque library), for unit samples  *)
 (* on the grid:                                                             *)
@@ -189,38 +304,64 @@ IntegralCell(c, x) == c.int => x % U = 0
 (*            (base_ot_stratified_doe.py: centring + scaling)                *)
 (*  ff2n, pb  two-level designs rescaled from {-1, 1} to {0, 1};             *)
 (*  bb        three-level design rescaled to {0, 1/2, 1} (PyDOELibrary.__scale) *)
-Off(v) == Abs(2 * v - G)                       \* twice the distance to the centre of the cube
-OnLevel(v, L) == \E m \in 0..L : Off(v) * L = G * m
+\* (with per-direction user structure: against its meaning aux, see above)
 RowsDistinct(u) == \A r1, r2 \in 1..Len(u) : r1 # r2 => u[r1] # u[r2]
-Cells(u) == {<<r, k>> : r \in 1..Len(u), k \in 1..(IF Len(u) = 0 THEN 0 ELSE Len(u[1]))}
-DiagOK(u, n) ==
-  \A k \in 1..(IF Len(u) = 0 THEN 0 ELSE Len(u[1])) :
-     \/ \A r \in 1..Len(u) : u[r][k] * (n - 1) = (r - 1) * G
-     \/ \A r \in 1..Len(u) : u[r][k] * (n - 1) = (n - r) * G
-FullFactOK(u, L) ==
-  /\ \A c \in Cells(u) : IF L = 1 THEN 2 * u[c[1]][c[2]] = G ELSE (u[c[1]][c[2]] * (L - 1)) % G = 0
+NCols(u) == IF Len(u) = 0 THEN 0 ELSE Len(u[1])
+Cells(u) == {<<r, k>> : r \in 1..Len(u), k \in 1..NCols(u)}
+\* column k runs from 0 to 1, or from 1 to 0 iff the user reversed component k
+DiagOK(u, n, rev) ==
+  \A k \in 1..NCols(u) :
+     IF k \in rev THEN \A r \in 1..Len(u) : u[r][k] * (n - 1) = (n - r) * G
+     ELSE \A r \in 1..Len(u) : u[r][k] * (n - 1) = (r - 1) * G
+\* full factorial with lev[k] levels in direction k
+FullFactLOK(u, lev) ==
+  /\ \A c \in Cells(u) : IF lev[c[2]] = 1 THEN 2 * u[c[1]][c[2]] = G ELSE (u[c[1]][c[2]] * (lev[c[2]] - 1)) % G = 0
   /\ RowsDistinct(u)
-NOff(row) == Cardinality({k \in 1..Len(row) : Off(row[k]) # 0})
-SameOff(row) == \A k1, k2 \in 1..Len(row) : Off(row[k1]) = Off(row[k2])
-StratOK(f, u, L) ==
-  /\ \A c \in Cells(u) : OnLevel(u[c[1]][c[2]], L)
-  /\ \E c \in Cells(u) : Off(u[c[1]][c[2]]) = G
-  /\ \E r \in 1..Len(u) : NOff(u[r]) = 0
-  /\ \A r \in 1..Len(u) :
-       LET row == u[r]
-       IN  CASE f = "axial"     -> NOff(row) <= 1
-             [] f = "factorial" -> NOff(row) = 0 \/ (NOff(row) = Len(row) /\ SameOff(row))
-             [] OTHER           -> NOff(row) <= 1 \/ (NOff(row) = Len(row) /\ SameOff(row))
-  /\ (f # "composite" \/ Len(u[1]) >= 2 => RowsDistinct(u))     \* (composite, d = 1: axial = factorial points)
+FullFactOK(u, L) == FullFactLOK(u, [k \in 1..NCols(u) |-> L])
+\* stratified designs around the centre ce (per direction, units 1/G) with the level set lv (<<a, b>> = a/b):
+\* a component at level l sits at ce + l (1 - ce) or ce - l ce
+LevelsAt(v, c, lv) == {l \in lv : \/ (v > c /\ (v - c) * l[2] = l[1] * (G - c))
+                                  \/ (v < c /\ (c - v) * l[2] = l[1] * c)}
+OffC(row, ce) == {k \in 1..Len(row) : row[k] # ce[k]}
+StratRowOK(f, row, ce, lv) ==
+  LET off == OffC(row, ce)
+      one == Cardinality(off) <= 1 /\ \A k \in off : LevelsAt(row[k], ce[k], lv) # {}
+      all == off = 1..Len(row) /\ \E l \in lv : \A k \in off : l \in LevelsAt(row[k], ce[k], lv)
+  IN  CASE f = "axial"     -> one
+        [] f = "factorial" -> off = {} \/ all
+        [] OTHER           -> one \/ all
+StratOKC(f, u, ce, lv) ==
+  /\ \A r \in 1..Len(u) : StratRowOK(f, u[r], ce, lv)
+  /\ \A l \in lv : \E c \in Cells(u) : l \in LevelsAt(u[c[1]][c[2]], ce[c[2]], lv)      \* every level is used
+  /\ \E r \in 1..Len(u) : OffC(u[r], ce) = {}                                           \* the centre is a point
+  /\ (f # "composite" \/ NCols(u) >= 2 => RowsDistinct(u))     \* (composite, d = 1: axial = factorial points)
+\* with n_samples: centre of the cube, L equispaced levels k/L (level 1 on the faces)
+StratOK(f, u, L) == StratOKC(f, u, [k \in 1..NCols(u) |-> G \div 2], {<<m, L>> : m \in 1..L})
+\* user-supplied design: the unit samples are the design-space pre-image of the table, BY NAME
+CustomUnitOK(space, tab, u) ==
+  /\ Shape(u, Len(tab), Len(space))
+  /\ \A r \in 1..Len(tab) : \A k \in 1..Len(space) :
+        Image(space[k], u[r][k], TRUE) = tab[r][space[k].var][OffIn(space, k)]
+\* one-at-a-time: starts at the initial point, row r+1 moves component r only
+OatOK(u, init) ==
+  /\ Len(u) = Len(init) + 1 /\ u[1] = init
+  /\ \A r \in 1..Len(init) : \A k \in 1..Len(init) : (u[r + 1][k] = u[r][k]) <=> (k # r)
 ValuesIn(u, vals) == \A c \in Cells(u) : u[c[1]][c[2]] \in vals
 StructureOK(f, n, d, p, u) ==
-  CASE f = "diag"     -> DiagOK(u, n)
-    [] f = "fullfact" -> FullFactOK(u, Levels(f, n, d, p))
+  CASE f = "fullfact" -> FullFactOK(u, Levels(f, n, d, p))
     [] f \in {"axial", "factorial", "composite"} -> StratOK(f, u, Levels(f, n, d, p))
     [] f = "ff2n"     -> ValuesIn(u, {0, G}) /\ RowsDistinct(u)
     [] f = "pb"       -> ValuesIn(u, {0, G})
     [] f = "bb"       -> ValuesIn(u, {0, G \div 2, G})
     [] OTHER          -> TRUE
+\* ... of a call c on the design space `space`
+StructureOKC(space, c, u) ==
+  CASE c.fam = "custom"    -> CustomUnitOK(space, c.aux.tab, u)
+    [] c.fam = "diag"      -> DiagOK(u, c.n, c.aux.rev)
+    [] c.fam = "fullfactL" -> FullFactLOK(u, c.aux.pv)
+    [] c.fam \in StratL    -> StratOKC(BaseFam(c.fam), u, c.aux.pv, c.aux.lv)
+    [] c.fam = "oat"       -> OatOK(u, c.aux.pv)
+    [] OTHER               -> StructureOK(c.fam, c.n, Len(space), c.p, u)
 
 \* distinct elements in order of first occurrence (no recursion: designs of a few hundred rows)
 FirstOcc(s) == {i \in 1..Len(s) : \A j \in 1..(i - 1) : s[j] # s[i]}
@@ -231,6 +372,7 @@ SeedUsed(seeded, seed, d0) == IF seeded THEN seed ELSE d0 + 1     \* Seeder.get_
 
 ----------------------------------------------------------------------------
 NoCall == [inst |-> CHOOSE i \in Insts : TRUE, api |-> "compute", fam |-> "exact", n |-> 0, p |-> 0,
+           ux |-> NoUx, aux |-> NoAux,
            seeded |-> FALSE, seed |-> 0, inj |-> FALSE, saved |-> FALSE, d0 |-> 0,
            calls |-> 0, used |-> 0, cnt |-> 0, opq |-> FALSE, unit |-> <<>>, utok |-> <<>>,
            x |-> <<>>, xtok |-> <<>>, keys |-> <<>>, ok |-> FALSE]
@@ -243,26 +385,29 @@ Init == /\ dflt = [i \in Insts |-> 0]
         /\ memo = <<>>
         /\ ncalls = 0
 
-Key(c) == <<c.fam, c.n, c.p, IF c.calls >= 1 THEN c.used ELSE 0>>
+\* the sampler is a function of (family, n, settings, MEANING of the user structure, seed used): the input
+\* form and the key order of a user-supplied design are not part of the key
+Key(c) == <<c.fam, c.n, c.p, IF c.calls >= 1 THEN c.used ELSE 0, c.aux>>
 
-NewCall(i, api, f, n, p, sd, s, inj) ==
+NewCall(i, api, f, n, p, sd, s, inj, ux) ==
   [NoCall EXCEPT !.inst = i, !.api = api, !.fam = f, !.n = n, !.p = p, !.seeded = sd,
-                 !.seed = IF sd THEN s ELSE 0, !.inj = inj, !.saved = flag, !.d0 = dflt[i]]
+                 !.seed = IF sd THEN s ELSE 0, !.inj = inj, !.saved = flag, !.d0 = dflt[i],
+                 !.ux = ux, !.aux = AuxOf(sp, f, ux)]
 
-Begin(i, api, f, n, p, sd, s, inj) ==
+Begin(i, api, f, n, p, sd, s, inj, ux) ==
   /\ pc \in {"idle", "done"}
   /\ (api = "execute" => ~ExecRefuses(f, n, Dim, p))
-  /\ cur' = NewCall(i, api, f, n, p, sd, s, inj)
+  /\ cur' = NewCall(i, api, f, n, p, sd, s, inj, ux)
   /\ flag' = TRUE
   /\ pc' = "begun"
   /\ ncalls' = ncalls + 1
   /\ UNCHANGED <<dflt, sp, memo>>
 
 \* execute(): invalid settings / too small a dimension are refused before the design space is touched
-Refuse(i, api, f, n, p, sd, s) ==
+Refuse(i, api, f, n, p, sd, s, ux) ==
   /\ pc \in {"idle", "done"}
   /\ api = "execute" /\ (ExecRefuses(f, n, Dim, p) \/ MayReject(f, p))
-  /\ cur' = NewCall(i, api, f, n, p, sd, s, FALSE)
+  /\ cur' = NewCall(i, api, f, n, p, sd, s, FALSE, ux)
   /\ pc' = "done"
   /\ ncalls' = ncalls + 1
   /\ UNCHANGED <<dflt, flag, sp, memo>>
@@ -281,12 +426,13 @@ SeederStep(calls) ==
 Sample(calls, cnt, u, uTok, opq) ==
   /\ pc = "begun"
   /\ SettingsValid(cur.fam, cur.n, cur.p) /\ Accepts(cur.fam, cur.n, Dim, cur.p) /\ ~cur.inj
+  /\ AuxValid(sp, cur.fam, cur.p, cur.aux)
   /\ calls \in {0, 1}
-  /\ CountOK(cur.fam, cur.n, Dim, cur.p, cnt)
+  /\ CountOKC(cur, Dim, cnt)
   \* ("= TRUE": evaluated as a state function; TLC would otherwise unfold the large quantifiers of an
   \*  action conjunct recursively)
   /\ (IF opq THEN u = <<>>
-      ELSE (Shape(u, cnt, Dim) /\ UnitCube(u) /\ StructureOK(cur.fam, cur.n, Dim, cur.p, u))) = TRUE
+      ELSE (Shape(u, cnt, Dim) /\ UnitCube(u) /\ StructureOKC(sp, cur, u))) = TRUE
   /\ LET c2 == [SeederStep(calls) EXCEPT !.cnt = cnt, !.unit = u, !.utok = uTok, !.opq = opq]
      IN  /\ (Key(c2) \in DOMAIN memo => memo[Key(c2)].u = uTok)     \* the sampler is a function
          /\ cur' = c2
@@ -324,6 +470,7 @@ Raise ==
 
 \* ---- the bounded model: every choice ranges over the constants
 UnitMatrices(cnt) == IF UnitMode = "all" THEN [1..cnt -> [1..Dim -> GridVals]]
+                     ELSE IF UnitMode = "rows" THEN {[r \in 1..cnt |-> [k \in 1..Dim |-> g[r]]] : g \in [1..cnt -> GridVals]}
                      ELSE {[r \in 1..cnt |-> [k \in 1..Dim |-> g]] : g \in GridVals}
 Rounded(u, up) == [r \in 1..Len(u) |-> [k \in 1..Dim |-> CellVal(sp[k], u[r][k], flag, up)]]
 MaxCount == 70
@@ -335,19 +482,56 @@ Choices(f, n, p, sd, s) ==
   /\ (f \in NFams \/ n = 0)
   /\ (f \in PFams \/ p = 0)
   /\ (sd \/ s = CHOOSE s0 \in Seeds : TRUE)
+
+\* ---- the user-provided structure the bounded model enumerates (UxMode = "rich") or fixes ("plain")
+\* tables of a user-supplied design: images of unit matrices (an integer component whose image is not an
+\* integer is given at its lower bound), so that the given values are on the grid, in bounds and integral
+ExactCell(c, j) == IF c.int /\ Image(c, j, TRUE) % U # 0 THEN 0 ELSE j
+TableOfUnit(u) == [r \in 1..Len(u) |-> [v \in VarSet(sp) |->
+                     [m \in 1..Len(Idx(sp, v)) |-> LET k == Idx(sp, v)[m] IN Image(sp[k], ExactCell(sp[k], u[r][k]), TRUE)]]]
+CustomTables(p) == {TableOfUnit(u) : u \in UnitMatrices(p)}
+PermSeqs(Q) == {q \in [1..Cardinality(Q) -> Q] : \A i, j \in DOMAIN q : i # j => q[i] # q[j]}
+Rich == UxMode = "rich"
+CustomUx(p) ==
+  {[NoUx EXCEPT !.form = fp[1], !.perm = fp[2], !.fopt = fp[3], !.pres = Presented(sp, tab, fp[1], fp[2])] :
+     tab \in CustomTables(p),
+     fp \in {<<fm, pm, fo>> \in (IF Rich THEN Forms ELSE {"array"}) \X PermSeqs(VarSet(sp)) \X (0..5) :
+              /\ (fm \in {"array", "file"} => pm = VarSeq(sp))      \* positional forms have no key order
+              /\ (fm # "file" => fo = 0)}}
+SelChoices == IF Rich THEN {<<>>, <<sp[1].var>>, <<IdxStr[Dim]>>, <<sp[Dim].var, IdxStr[1]>>} ELSE {<<>>}
+LevelVals == {2, 3}
+CentreVals == {G \div 4, (3 * G) \div 4}
+LvChoices == {<< <<1, 1>> >>, << <<1, 2>>, <<1, 1>> >>}
+Scalars(Q) == {[NoUx EXCEPT !.pv = <<q>>, !.scal = TRUE] : q \in Q}
+UserExtras(f, p) ==
+  CASE f = "custom"    -> IF p >= 1 THEN CustomUx(p) ELSE {NoUx}
+    [] f = "diag"      -> {[NoUx EXCEPT !.sel = q] : q \in SelChoices}
+    [] f = "fullfactL" -> IF Rich THEN {[NoUx EXCEPT !.pv = q] : q \in [1..Dim -> LevelVals]} \cup Scalars(LevelVals)
+                          ELSE Scalars({2})
+    [] f \in StratL    -> IF Rich THEN {[x EXCEPT !.lv = l] :
+                                           x \in {[NoUx EXCEPT !.pv = q] : q \in [1..Dim -> CentreVals]} \cup Scalars(CentreVals),
+                                           l \in LvChoices}
+                          ELSE {[x EXCEPT !.lv = << <<1, 1>> >>] : x \in Scalars({G \div 2})}
+    [] f = "oat"       -> {[NoUx EXCEPT !.pv = [k \in 1..Dim |-> IF Rich THEN ((4 - ((k - 1) % 4)) * G) \div 8 ELSE G \div 2]]}
+    [] OTHER           -> {NoUx}
 \* (the state tests come before the quantifiers: TLC does not hoist them)
 DoBegin == /\ pc = "idle" /\ ncalls < MaxCalls
            /\ \E f \in Fams, n \in Ns, p \in Ps, sd \in BOOLEAN, s \in Seeds :
                 /\ Choices(f, n, p, sd, s)
-                /\ \E i \in Insts, api \in Apis, inj \in Injects : Begin(i, api, f, n, p, sd, s, inj)
+                /\ \E i \in Insts, api \in Apis, inj \in Injects, ux \in UserExtras(f, p) :
+                     Begin(i, api, f, n, p, sd, s, inj, ux)
 DoRefuse == /\ pc = "idle" /\ ncalls < MaxCalls
             /\ \E f \in Fams, n \in Ns, p \in Ps, sd \in BOOLEAN, s \in Seeds :
                  /\ Choices(f, n, p, sd, s)
-                 /\ \E i \in Insts, api \in Apis : Refuse(i, api, f, n, p, sd, s)
+                 /\ \E i \in Insts, api \in Apis, ux \in UserExtras(f, p) : Refuse(i, api, f, n, p, sd, s, ux)
+\* the unit pre-image of a user-supplied table (Sample's guard CustomUnitOK demands that the division is exact)
+UnitOfTable(tab) == [r \in 1..Len(tab) |-> [k \in 1..Dim |->
+                       (tab[r][sp[k].var][OffIn(sp, k)] - sp[k].lb * G) \div (sp[k].ub - sp[k].lb)]]
 DoSample == /\ pc = "begun"
             /\ \E cnt \in 1..MaxCount :
-                 /\ CountOK(cur.fam, cur.n, Dim, cur.p, cnt)
-                 /\ \E calls \in {0, 1}, u \in UnitMatrices(cnt) : Sample(calls, cnt, u, u, FALSE)
+                 /\ CountOKC(cur, Dim, cnt)
+                 /\ \E calls \in {0, 1}, u \in (IF cur.fam = "custom" THEN {UnitOfTable(cur.aux.tab)} ELSE UnitMatrices(cnt)) :
+                      Sample(calls, cnt, u, u, FALSE)
 DoSampleFail == pc = "begun" /\ \E calls \in {0, 1} : SampleFail(calls)
 DoFinish == pc = "sampled" /\ \E up \in BOOLEAN : LET X == Rounded(cur.unit, up) IN Finish(X, X)
 
@@ -367,7 +551,7 @@ Integral == DoneOK => \A r \in 1..Len(cur.x) : \A k \in 1..Dim : IntegralCell(sp
 \* variable order = design-space order; samples = design-space image of the unit samples
 ImageOfUnit == DoneOK => SamplesOK(sp, cur.unit, cur.x, TRUE)
 CountRule == DoneOK => /\ Len(cur.x) = cur.cnt
-                       /\ CountOK(cur.fam, cur.n, Dim, cur.p, cur.cnt)
+                       /\ CountOKC(cur, Dim, cur.cnt)
                        /\ (cur.fam \in NFams /\ cur.fam # "sobolidx" => cur.cnt <= cur.n)
                        /\ cur.cnt >= 1
 RejectRule == Done /\ ~cur.ok => \/ ~SettingsValid(cur.fam, cur.n, cur.p)
@@ -379,7 +563,19 @@ SeedRule == pc \in {"sampled", "failed", "done"} =>
               /\ (cur.calls = 1 => cur.used = IF cur.seeded THEN cur.seed ELSE cur.d0 + 1)
 \* equal (family, n, settings, seed used) => equal unit samples and samples, whatever the
 \* instance and its seeder history
-Structure == DoneOK /\ ~cur.opq => StructureOK(cur.fam, cur.n, Dim, cur.p, cur.unit)
+Structure == DoneOK /\ ~cur.opq => StructureOKC(sp, cur, cur.unit)
+\* "expressed in the design space's variable order": the components of sample r at the index range of
+\* variable v are the values the user gave for (r, v), BY NAME, wherever v sits in the user's mappings
+VariableOrderOf(space, tab, X) ==
+  /\ Shape(X, Len(tab), Len(space))
+  /\ \A r \in 1..Len(tab) : \A v \in VarSet(space) : Slice(X[r], Idx(space, v)) = tab[r][v]
+VariableOrder == DoneOK /\ cur.fam = "custom" => VariableOrderOf(sp, cur.aux.tab, cur.x)
+\* the meaning of a presentation does not depend on the form or on the key order
+PresentationNeutral ==
+  pc = "idle" /\ "custom" \in Fams =>
+    \A p \in {q \in Ps : 1 <= q /\ q <= 2} : \A tab \in CustomTables(p) : \A fm \in Forms : \A pm \in PermSeqs(VarSet(sp)) :
+       TableOf(sp, fm, Presented(sp, tab, fm, pm)) = tab
+SpaceWellFormed == WellFormed(sp)
 Deterministic == DoneOK => /\ Key(cur) \in DOMAIN memo
                            /\ memo[Key(cur)].u = cur.utok
                            /\ memo[Key(cur)].x = cur.xtok
@@ -388,7 +584,8 @@ DbOrder == DoneOK /\ cur.api = "execute" => cur.keys = Dedup(cur.x)
 (* Lemmas on the count rules over all families, n and d (checked by TLC in   *)
 (* the configuration that enumerates one call per instance (f, n, p)).      *)
 CountLemma ==
-  pc = "begun" /\ SettingsValid(cur.fam, cur.n, cur.p) /\ Accepts(cur.fam, cur.n, Dim, cur.p) /\ cur.fam # "atmost" =>
+  pc = "begun" /\ SettingsValid(cur.fam, cur.n, cur.p) /\ Accepts(cur.fam, cur.n, Dim, cur.p) /\ cur.fam # "atmost"
+     /\ cur.fam \notin LFams =>
     LET f == cur.fam
         n == cur.n
         d == Dim
